@@ -13,12 +13,12 @@ Property C20 — concurrent requests neither deadlock nor break per-channel atom
   `Locks_rank_deadlock_free`: the same for a rank function into `Nat × Nat` (class rank, instance:
   instances of `slot` ordered by id) stated on the held-while-acquiring edges.
 * `C20_main_statement` = the full property instantiated at the GENERATED lock table (every request
-  kind).  For the current code it is FALSE: `C20_full_false` exhibits the deadlocked interleaving of
-  `forget_channel × channel_balance` on the generated paths (finding F11); `C20_cycle_*` exhibit one
-  witness per lock-order cycle.
+  kind).  For the current code it is FALSE: `C20_full_false` / `C20_cycle_slot_monitor` exhibit the
+  deadlocked interleaving of a channel request with `add_block` (slot(i) ↔ monitor(i), the remaining
+  cycle of finding F11; the node_state and tracker cycles were removed by re-ordering).
 * `C20_partial`: deadlock freedom + termination for any number of concurrent requests of the kinds
-  in `subKinds` (12 of the 17 scanned kinds: all channel requests on any channels, balance/chaninfo,
-  on-chain checks and signing, new_channel, invoice/keysend approval, allowlist operations); the
+  in `subKinds` (15 of the 17 scanned kinds: everything except add_block / remove_block); lock order
+  tracker < channels < slot < node_state < monitor < monitor_decode < validator_factory < store; the
   acyclicity of that sub-table is `C20_subtable_acyclic`, by `decide +kernel` over the generated table.
 * `Locks_2pl_exclusive_partial`: mutual exclusion (two threads never hold the same lock, so the events a
   channel request executes between acquiring and releasing `slot i` are never interleaved with
@@ -91,14 +91,14 @@ def C20_main_statement : Prop := DeadlockFreeFor Kind.all
 
 /-- rank of the lock classes that orders the acyclic sub-table -/
 def rankCls : Cls → Nat
-  | .channels => 0 | .tracker => 1 | .slot => 2 | .nodeState => 3 | .monitor => 4
+  | .tracker => 0 | .channels => 1 | .slot => 2 | .nodeState => 3 | .monitor => 4
   | .monitorDecode => 5 | .validatorFactory => 6 | .store => 7
 
 /-- the request kinds whose rows are rank-increasing in the current table -/
 def subKinds : List Kind :=
-  [.channel_request, .channel_base_request, .channel_balance, .chaninfo, .check_onchain_tx,
-   .unchecked_sign_onchain_tx, .new_channel, .add_invoice, .add_keysend, .add_allowlist,
-   .set_allowlist, .remove_allowlist]
+  [.channel_request, .channel_base_request, .forget_channel, .channel_balance, .chaninfo,
+   .check_onchain_tx, .unchecked_sign_onchain_tx, .new_channel, .setup_channel, .get_heartbeat,
+   .add_invoice, .add_keysend, .add_allowlist, .set_allowlist, .remove_allowlist]
 
 /-- generated-table obligation: every edge of every row of the sub-table increases the rank -/
 theorem C20_subtable_acyclic : ∀ k ∈ subKinds, ∀ e ∈ edges k, rankCls e.1 < rankCls e.2 := by
@@ -184,17 +184,6 @@ theorem deadlockFree_mono {ks ks' : List Kind} (hsub : ∀ k ∈ ks, k ∈ ks') 
   intro h reqs hc
   exact h reqs (fun r hr => by obtain ⟨k, hk, hck⟩ := hc r hr; exact ⟨k, hsub k hk, hck⟩)
 
-/-- cycle node_state → channels → slot → node_state: `forget_channel` takes node_state first, every
-channel method takes node_state while holding the slot (here via `channel_balance`).  Schedule:
-forget acquires node_state; balance acquires channels and slot 0; both are then blocked. -/
-theorem C20_cycle_state_slot : ¬ DeadlockFreeFor [.forget_channel, .channel_balance] :=
-  not_deadlockFree_of_witness _ _ [0, 1, 1] (by decide +kernel)
-
-/-- cycle channels ↔ tracker: `new_channel` takes the tracker while holding the channel map,
-`get_heartbeat` takes the channel map while holding the tracker. -/
-theorem C20_cycle_channels_tracker : ¬ DeadlockFreeFor [.get_heartbeat, .new_channel] :=
-  not_deadlockFree_of_witness _ _ [0, 0, 0, 0, 0, 1, 1, 1, 1, 1, 1, 1] (by decide +kernel)
-
 /-- cycle slot(i) ↔ monitor(i): a channel request reads its monitor while holding the slot, a block
 containing a transaction of that channel makes the monitor call the commitment-point provider,
 which locks the slot. -/
@@ -204,7 +193,7 @@ theorem C20_cycle_slot_monitor : ¬ DeadlockFreeFor [.channel_request, .add_bloc
 /-- **The full statement is false for the current code** (finding F11). -/
 theorem C20_full_false : ¬ C20_main_statement := by
   intro h
-  exact C20_cycle_state_slot (deadlockFree_mono (by decide) h)
+  exact C20_cycle_slot_monitor (deadlockFree_mono (by decide) h)
 
 /-! ### Atomicity (lock-level half of two-phase locking) -/
 
